@@ -68,6 +68,17 @@ add("C15", "exploration",
     "Node names are compared right after the round-trip only (relabel/graft renumber in traversal order); single chain in-process for (b).",
     "DESIGN.md section 5 C15")
 
+add("C05", "exploration",
+    "property-based testing against a reference model (PyClone mixture re-derived with scipy pmfs) through the file loader; metamorphic normalisation over all alternate counts; cluster-sum and outlier-term identities",
+    "Generated input tables (counts incl. zero/extreme depth, copy numbers, tumour content, error rates, both densities, precision, grid, clustering) are loaded from disk and every grid entry compared (1e-8 / 1e-6 relative) with an independent model; normalisation tables must sum to 1.",
+    "Trusts scipy.stats binom/betabinom and logsumexp; reads grids at load_data's output.",
+    "DESIGN.md section 5 C05")
+add("C17", "exploration",
+    "property-based testing against a pure-Python model of the documented filter + metamorphic relations (row permutation, TSV vs CSV, defaults vs explicit columns)",
+    "Generated tables with missing/duplicated/zero-copy-number cells, string or integer ids, optional columns and clustering: kept set, numbering, sample order and values must match the model, be independent of row order and separator, and major<minor on a kept row must raise.",
+    "The two exclusions stated in the property are removed by construction (counted in evidence).",
+    "DESIGN.md section 5 C17")
+
 NOT_APPLICABLE = []
 
 def main():
